@@ -1,5 +1,5 @@
 """C19 Shape text: placement, tspans and alignment classes (the string-fidelity half is not applicable). DESIGN.md §5, Appendix A."""
-import itertools, re
+import random, itertools, re
 from fractions import Fraction
 from vlib.engine import *  # noqa
 from vlib import geom as G
@@ -83,6 +83,23 @@ def templates(tier, seed):
             for form in ("trail2", "lead", "mid", "trail3", "only-nl", "crlf"):
                 for carrier in ("attr", "content"):
                     tds.append(dict(fam="blanklines", kind=k, loc=loc, mode="default", off="default", dxy="none", vert=False, lines=0, carrier=carrier, form=form))
+    # seeded random combinations of every option at once (the families above vary them mostly one or two at a time)
+    rc = random.Random(777 + seed)
+    for i in range(300 if tier == "quick" else 4000):
+        vert = rc.random() < 0.2
+        lines = rc.choice([1, 1, 2, 3])
+        td = dict(fam="combo", kind=rc.choice(kinds), loc=rc.choice(LOCS + ["t:25%", "r:o", "b:o", "l:25%"]), mode=rc.choice(["default", "inside", "outside"]),
+                  off="default" if vert else rc.choice(["default", "sym"]), dxy="none" if vert else rc.choice(["none", "dx+dy", "dxy", "dxy+dy", "dxy+dx"]), vert=vert, lines=lines,
+                  carrier=rc.choice(["attr", "attr", "content"]))
+        if lines > 1 or rc.random() < 0.3:
+            td["lsp"] = rc.choice(["default", "sym"])
+        if rc.random() < 0.3:
+            td["tstyle"] = True
+        if rc.random() < 0.25 and td["carrier"] == "attr":
+            td["held"] = True
+        if td["carrier"] == "content" and td["kind"] in ("point", "box"):
+            td["carrier"] = "attr"
+        tds.append(td)
     # the carrier has to wait for a later element (it is processed on a retry): same placement
     for k in kinds:
         for loc in ("tl", "r", "b:o", "c"):
